@@ -1109,18 +1109,33 @@ class Num:
                 return self.val(n["a"][1], st)
             a, b = self.val(n["a"][0], st), self.val(n["a"][1], st)
             if op in CMP:
+                if a is not None and b is not None and getattr(self, "eager_truth", True):
+                    tv = self.cmp_truth(st, op, a, b)  # what the path already decided (short-circuit operands in value context)
+                    if tv is not None:
+                        return Poly.const(1 if tv else 0)
                 at = self.fresh(st, "cmp", None, (0, 1))
                 if a is not None and b is not None:
                     st.cond[at] = {"nz": [("cmp", op, a, b)], "z": [("cmp", NEGOP[op], a, b)]}
                 return Poly.atom(at)
             if op in ("&&", "||"):
                 known = [x for x in (a, b) if x is not None]
-                for x in known:
-                    if x.is_const():  # one operand decides the result (both operands were evaluated above for their effects)
-                        if op == "||" and x.cval() != 0:
-                            return Poly.const(1)
-                        if op == "&&" and x.cval() == 0:
-                            return Poly.const(0)
+                tvs = [self.truth(st, x) for x in (a, b)]
+                # one operand decides the result (both operands were evaluated above for their effects)
+                if op == "||" and True in tvs:
+                    return Poly.const(1)
+                if op == "&&" and False in tvs:
+                    return Poly.const(0)
+                if tvs == [True, True]:
+                    return Poly.const(1)
+                if tvs == [False, False]:
+                    return Poly.const(0)
+                known = [x for x, tv_ in zip((a, b), tvs) if x is not None and tv_ is None]
+                neutral = True if op == "&&" else False
+                if len(known) == 1 and tvs.count(neutral) == 1:
+                    # the other operand is decided and neutral: the result is the truth of this one
+                    at = self.fresh(st, "log", None, (0, 1))
+                    st.cond[at] = {"nz": [("ne0", known[0])], "z": [("eq0", known[0])]}
+                    return Poly.atom(at)
                 at = self.fresh(st, "log", None, (0, 1))
                 if known:
                     if op == "&&":
@@ -1299,6 +1314,57 @@ class Num:
                 st.add(Poly.atom(r) - a)
                 return Poly.atom(r)
         return Poly.atom(self.fresh(st, "op", t)) if ("w" in t or t.get("ptr")) else None
+
+    def truth(self, st, x, depth=0):
+        """True / False when the state decides whether x is non-zero, else None"""
+        if x is None:
+            return None
+        if x.is_const():
+            return x.cval() != 0
+        if not getattr(self, "eager_truth", True):
+            return None
+        if entails(st, x) and entails(st, -x):
+            return False
+        if entails(st, Poly.const(1) - x) or entails(st, x + 1):
+            return True
+        # a flag atom (comparison / logical result evaluated earlier on this path): its conditional facts say what its
+        # being zero / non-zero would imply - if one of those implications is refuted by the path, the other value holds
+        if depth < 4 and len(x.t) == 1 and list(x.t.values()) == [1]:
+            (m,) = x.t.keys()
+            if len(m) == 1 and m[0] in st.cond:
+                cd = st.cond[m[0]]
+                if any(self.item_truth(st, it, depth + 1) is False for it in cd.get("z", [])):
+                    return True
+                if any(self.item_truth(st, it, depth + 1) is False for it in cd.get("nz", [])):
+                    return False
+        return None
+
+    def item_truth(self, st, it, depth=0):
+        if it[0] == "cmp":
+            return self.cmp_truth(st, it[1], it[2], it[3])
+        tv = self.truth(st, it[1], depth)
+        if tv is None:
+            return None
+        return tv if it[0] == "ne0" else (not tv)
+
+    def cmp_truth(self, st, op, a, b):
+        d = a - b
+        if d.is_const():
+            v = d.cval()
+            return {"==": v == 0, "!=": v != 0, "<": v < 0, "<=": v <= 0, ">": v > 0, ">=": v >= 0}[op]
+        if op in ("==", "!="):
+            r = None
+            if entails(st, d) and entails(st, -d):
+                r = True
+            elif entails(st, d + 1) or entails(st, -d + 1):
+                r = False
+            return r if (op == "==" or r is None) else (not r)
+        yes, no = {"<": (d + 1, -d), "<=": (d, -d + 1), ">": (-d + 1, d), ">=": (-d, d + 1)}[op]
+        if entails(st, yes):
+            return True
+        if entails(st, no):
+            return False
+        return None
 
     # ---- assumptions
     def assume_atoms(self, items, st):
